@@ -161,7 +161,7 @@ impl Check for VotesCheck {
         serde_json::json!({"real": ["stellar_governance::votes::*", "stellar_tokens::fungible::votes::FungibleVotes", "fungible Base"], "stub": ["Wallet"]})
     }
     fn probes(&self, _prop: &str) -> std::vec::Vec<&'static str> {
-        vec!["probe.same_ledger_update"]
+        vec!["probe.same_ledger_update", "probe.sweep_over_more_than_5_checkpoint_ledgers"]
     }
     fn dup_ok(&self, _s: &Step) -> bool {
         true
@@ -346,6 +346,36 @@ impl Check for VotesCheck {
                 }
             }
             st.state(&(m.del.clone(), m.bal.values().map(|v| (*v > 0) as u8).collect::<Vec<_>>()));
+        }
+        // ---- end of run: the whole past, every touched ledger and its neighbours, for every account and the total
+        // (a later operation must never change an answer about the past; lookups must be right at every checkpoint
+        // position, not only the recent ones)
+        let now = w.now();
+        let mut qs: Vec<u32> = vec![0, cfg.start_ledger];
+        for t in touched.iter() {
+            qs.extend([t.saturating_sub(1), *t, t + 1]);
+        }
+        qs.sort();
+        qs.dedup();
+        if touched.len() > 5 {
+            st.hit("probe.sweep_over_more_than_5_checkpoint_ledgers");
+        }
+        for q in qs {
+            if q >= now {
+                continue;
+            }
+            for x in 0..cfg.actors {
+                let r = c.try_get_votes_at_checkpoint(&a(x), &q);
+                let want = m.votes_tl.get(&x).map(|tl| Model::at(tl, q)).unwrap_or(0);
+                match r {
+                    Ok(Ok(v)) if v == want => {}
+                    other => return Err(violation("past.eq_timeline", "votes_sweep", steps.len(), format!("actor {x} ledger {q} now {now}: got {other:?} want {want}"))),
+                }
+            }
+            match c.try_get_total_supply_at_checkpoint(&q) {
+                Ok(Ok(v)) if v == Model::at(&m.supply_tl, q) => {}
+                other => return Err(violation("past.eq_timeline", "supply_sweep", steps.len(), format!("ledger {q} now {now}: got {other:?} want {}", Model::at(&m.supply_tl, q)))),
+            }
         }
         Ok(())
     }
